@@ -131,7 +131,7 @@ class Pruner:
     """drops alternatives whose guard is unsatisfiable under the constraints collected so far (incremental SAT).
     Needed because the merged state applies every operation to every alternative, creating values no schedule can produce."""
     def __init__(s):
-        s.S = None; s.nd = 0; s.na = 0; s.calls = 0; s.dropped = 0; s.time = 0.0; s.assumes = None; s.enabled = True
+        s.S = None; s.nd = 0; s.na = 0; s.calls = 0; s.dropped = 0; s.time = 0.0; s.assumes = None; s.enabled = True; s.budget = 60.0
     def reset(s, assumes):
         s.S = z3.SolverFor('QF_FD'); s.S.set('timeout', 5000); s.nd = 0; s.na = 0; s.assumes = assumes; s.calls = 0; s.dropped = 0; s.time = 0.0
     def sat(s, g):
@@ -154,7 +154,7 @@ class Pruner:
         s.time += _t.time() - t0
         return r != z3.unsat
     def prune(s, d):
-        if s.S is None or not s.enabled: return d
+        if s.S is None or not s.enabled or s.time > s.budget: return d
         out = {}
         for k, (g, v) in d.items():
             if isinstance(g, bool): out[k] = (g, v); continue
